@@ -106,6 +106,62 @@ func Random3SAT(r *Rng, n, k, ratio100 int) [][]int {
 	return cnf
 }
 
+// Planted3SAT draws m random 3-clauses over n variables that a hidden random assignment satisfies.
+func Planted3SAT(r *Rng, n, m int) [][]int {
+	hidden := make([]bool, n+1)
+	for i := range hidden {
+		hidden[i] = r.Bool()
+	}
+	cnf := make([][]int, 0, m)
+	for len(cnf) < m {
+		c := r.DistinctLits(n, 3)
+		for _, l := range c {
+			if (l > 0 && hidden[l]) || (l < 0 && !hidden[-l]) {
+				cnf = append(cnf, c)
+				break
+			}
+		}
+	}
+	return cnf
+}
+
+// RepeatClauses turns cnf into a multiset with repeated members: a unit clause (an existing one, or a new one
+// over n variables) written 3 to 5 times, and up to two other clauses written twice or three times, each copy
+// at a random position. Copies are fresh slices.
+func RepeatClauses(r *Rng, cnf [][]int, n int) [][]int {
+	insert := func(c []int) {
+		i := r.Intn(len(cnf) + 1)
+		cnf = append(cnf, nil)
+		copy(cnf[i+1:], cnf[i:])
+		cnf[i] = append([]int{}, c...)
+	}
+	var units [][]int
+	for _, c := range cnf {
+		if len(c) == 1 {
+			units = append(units, c)
+		}
+	}
+	var u []int
+	if len(units) > 0 && r.Chance(2, 3) {
+		u = units[r.Intn(len(units))]
+	} else if n > 0 {
+		u = []int{r.Lit(n)}
+		insert(u)
+	}
+	if u != nil {
+		for k := r.Range(2, 4); k > 0; k-- {
+			insert(u)
+		}
+	}
+	for k := r.Intn(3); k > 0 && len(cnf) > 0; k-- {
+		c := cnf[r.Intn(len(cnf))]
+		for j := r.Range(1, 2); j > 0; j-- {
+			insert(c)
+		}
+	}
+	return cnf
+}
+
 // Pigeonhole returns the CNF stating that p pigeons fit in h holes.
 func Pigeonhole(p, h int) (cnf [][]int, n int) {
 	v := func(i, j int) int { return i*h + j + 1 }
